@@ -228,6 +228,36 @@ func history(c *common.Ctx, input string) {
 			c.Fail("history-dependent:reused-parser", fmt.Sprintf("call %d on a reused parser reports %v, a fresh parser %v", 2*i+1, got, want))
 		}
 	}
+	// the same with other calls in between: a parse under a context that is done at entry, one cancelled in the middle of a
+	// statement, a recovering parse of the rejected input, an accepted statement
+	dead, cancel := context.WithCancel(context.Background())
+	cancel()
+	between := []struct {
+		name string
+		run  func(p *parser.Parser)
+	}{
+		{"ParseContext(done context)", func(p *parser.Parser) { _, _ = p.ParseContextFromModelTokens(dead, nestProbeToks) }},
+		{"ParseContext(deadline passed)", func(p *parser.Parser) {
+			_, _ = p.ParseContextFromModelTokens(probe.NewCountCtx(0, context.DeadlineExceeded), toks)
+		}},
+		{"ParseContext(cancelled mid-statement)", func(p *parser.Parser) {
+			_, _ = p.ParseContextFromModelTokens(probe.NewCountCtx(4, context.Canceled), nestProbeToks)
+		}},
+		{"ParseWithRecovery(same input)", func(p *parser.Parser) { _, _ = p.ParseWithRecoveryFromModelTokens(toks) }},
+		{"Parse(accepted statement, no positions)", func(p *parser.Parser) { _, _ = p.ParseFromModelTokens(nestProbeToks) }},
+	}
+	for _, b := range between {
+		q := parser.NewParser()
+		_, _ = q.ParseFromModelTokensWithPositions(toks)
+		b.run(q)
+		_, got := q.ParseFromModelTokensWithPositions(toks)
+		if got == nil {
+			c.Fail("history-dependent:reused-parser", fmt.Sprintf("after %s the same parser accepts what a fresh parser rejects with %v", b.name, want))
+		} else if o := observe(got); o.code != ow.code || o.msg != ow.msg || o.loc != ow.loc {
+			c.Fail("history-dependent:reused-parser", fmt.Sprintf("after %s the same parser reports %v, a fresh parser %v", b.name, got, want))
+		}
+		q.Release()
+	}
 	if ep != nil {
 		c.Fail("limit-code-without-violation:reused-parser:"+observe(ep).code, fmt.Sprintf("after this rejected input the same parser rejects a statement at (not over) the nesting limit: %s", common.Trim(ep.Error(), 300)))
 	}
@@ -253,7 +283,7 @@ func Check() *common.Check {
 		// every case is recorded before it runs: a fatal error or a hang of the worker is attributed to it
 		CrashSafe: true,
 		Rule: "inputs: every single-token deletion, duplication and replacement (13 tokens, one of every lexical kind) of a spread of 300 (quick) / 2000 (thorough) sqlgen statements; all fragment strings of length <=3 (quick) / <=4 (thorough) over lexgen's 37-fragment lexical alphabet (bad escapes, unterminated literals, lone punctuation, control bytes); " +
-			"nesting beyond the depth limit in 6 constructs; an input one byte over the size limit; each through 10 failing-capable entry points; every input the parser (not the tokenizer) rejects is also run as a history: rejected input, a statement exactly at the nesting limit, the rejected input again - on one Parser object and (first two) inside one recovery call. distinct = distinct input text; non-trivial = at least one entry point rejects the input",
+			"nesting beyond the depth limit in 6 constructs; an input one byte over the size limit; each through 10 failing-capable entry points; every input the parser (not the tokenizer) rejects is also run as a history: rejected input, a statement exactly at the nesting limit, the rejected input again - on one Parser object, and with five other calls in between (ParseContext under a context done at entry / with a passed deadline / cancelled mid-statement, a recovering parse, a parse without positions) and (first two) inside one recovery call. distinct = distinct input text; non-trivial = at least one entry point rejects the input",
 		Assume: []string{"stage of a failure = whether tokenizer.Tokenize alone rejects the input", "message template = message with quoted/numeric parts removed, first five words before the first colon"},
 		Enumerate: func(e *common.Enum) {
 			seen := map[string]bool{}
